@@ -741,6 +741,84 @@ pub fn run(_env: &Env, run: &Run) -> (Stats, Coverage) {
             }
         }));
     }
+    // the same histories on LONG labels (72-byte prefixes of every UTF-8 width, see C03 b4'): the
+    // first call is `allows` of either class or a rule call inside the core of A, the second a
+    // rule call inside the core of B or `allows` on B, A and B in the same allocation
+    {
+        use rayon::prelude::*;
+        let long = crate::props::c03::long_history_labels();
+        let mut by_len: std::collections::BTreeMap<usize, Vec<&(String, usize, usize)>> = std::collections::BTreeMap::new();
+        for x in &long {
+            by_len.entry(x.0.len()).or_default().push(x);
+        }
+        let groups: Vec<Vec<&(String, usize, usize)>> = by_len.into_values().filter(|g| g.len() >= 2).collect();
+        let shards: Vec<Stats> = groups
+            .par_iter()
+            .map(|g| {
+                let mut st = Stats::default();
+                let mut buf = String::with_capacity(128);
+                for a in g.iter() {
+                    let la: Vec<u32> = a.0.chars().map(|c| c as u32).collect();
+                    let ras = crate::props::c03::rules_present(&la);
+                    if ras.is_empty() {
+                        continue;
+                    }
+                    // first calls: 0 / 1 = allows, 2.. = (rule, position)
+                    let mut firsts: Vec<(Option<CtxRule>, usize)> = vec![(None, 0), (None, 1)];
+                    for &ra in &ras {
+                        for p in a.1..a.1 + a.2 {
+                            firsts.push((Some(ra), p));
+                        }
+                    }
+                    for b in g.iter() {
+                        if a.0 == b.0 {
+                            continue;
+                        }
+                        let lb: Vec<u32> = b.0.chars().map(|c| c as u32).collect();
+                        let rbs = crate::props::c03::rules_present(&lb);
+                        for &(fr, fp) in &firsts {
+                            for q in b.1..b.1 + b.2 {
+                                for second in 0..=rbs.len() {
+                                    st.states += 1;
+                                    st.transitions += 2;
+                                    st.evaluations += 2;
+                                    buf.clear();
+                                    buf.push_str(&a.0);
+                                    match fr {
+                                        Some(r) => {
+                                            let _ = ctx_rule(r, &buf, fp);
+                                        }
+                                        None => {
+                                            let _ = allows(if fp == 0 { Class::Identifier } else { Class::Freeform }, &buf);
+                                        }
+                                    }
+                                    buf.clear();
+                                    buf.push_str(&b.0);
+                                    if second < rbs.len() {
+                                        let o = ctx_rule(rbs[second], &buf, q);
+                                        if matches!(o, CtxOut::Panic(_)) {
+                                            let names = [fr.map(|r| r.name()).unwrap_or("allows").to_string(), rbs[second].name().to_string()];
+                                            st.violation("panic", || Case::new("ctx2").s(&a.0).s(&b.0).n(fp as u64).n(q as u64).x(json!(names)), "Ok / NotApplicable / Undefined".into(), format!("{:?}", o));
+                                        }
+                                    } else if q == b.1 {
+                                        let r = allows(Class::Identifier, &buf);
+                                        if matches!(r, OutU::Panic(_)) {
+                                            bad("allows", &buf, "Identifier (after a call on another label in the same allocation)", &r, &mut st);
+                                        }
+                                    }
+                                }
+                            }
+                        }
+                    }
+                }
+                st.count("out:long-two-call-histories");
+                st
+            })
+            .collect();
+        for x in shards {
+            st.merge(x);
+        }
+    }
     st.sample(json!({"input": ["U+00E9", " "], "ops": "4 profiles x (prepare, enforce, static prepare/enforce, 4 compare forms, 5 Rules methods) + allows x 2", "expected": "no panic"}));
     st.sample(json!({"input": ["U+200C"], "op": "rule_zero_width_nonjoiner", "position": "usize::MAX", "expected": "Undefined, no arithmetic overflow"}));
     st.sample(json!({"input": "0xFFFFFFFF", "op": "get_value_from_codepoint / get_context_rule", "expected": "a value, no panic"}));
@@ -792,10 +870,18 @@ pub fn replay(_env: &Env, case: &Case) -> Vec<Violation> {
             let (a, b) = (case.str_at(0), case.str_at(1));
             let ra = case.extra.get(0).and_then(|v| v.as_str()).and_then(CtxRule::from_name);
             let rb = case.extra.get(1).and_then(|v| v.as_str()).and_then(CtxRule::from_name);
-            if let (Some(ra), Some(rb)) = (ra, rb) {
-                let mut buf = String::with_capacity(64);
+            let first_is_allows = case.extra.get(0).and_then(|v| v.as_str()) == Some("allows");
+            if let (true, Some(rb)) = (ra.is_some() || first_is_allows, rb) {
+                let mut buf = String::with_capacity(128);
                 buf.push_str(&a);
-                let _ = ctx_rule(ra, &buf, case.nums[0] as usize);
+                match ra {
+                    Some(ra) => {
+                        let _ = ctx_rule(ra, &buf, case.nums[0] as usize);
+                    }
+                    None => {
+                        let _ = allows(if case.nums[0] == 0 { Class::Identifier } else { Class::Freeform }, &buf);
+                    }
+                }
                 buf.clear();
                 buf.push_str(&b);
                 let o = ctx_rule(rb, &buf, case.nums[1] as usize);
